@@ -283,7 +283,8 @@ def main(argv=None) -> int:
                 rule=("Each 'shape' (a bound: structure of the state/program, concrete clock etc.) is explored "
                       "path-exhaustively by running the real /repo functions on z3-backed proxies; "
                       "evaluations = solver queries; distinct_nontrivial = distinct feasible paths that carried "
-                      "at least one obligation the simplifier could not discharge (needed a solver query)."),
+                      "at least one obligation that is a formula over solver variables (not a concrete boolean), decided by z3 "
+                      "(simplifier or full query)."),
                 samples=samples,
                 obligations=int(agg["obligations"]), discharged=int(agg["discharged"]),
                 shapes=len(results), shapes_expected_unreachable=unreachable_ok, paths=int(agg["paths"]), infeasible_paths=int(agg["infeasible"]),
